@@ -115,6 +115,7 @@ def run(sel):
         if 'neutralised' in meta.get('check', {}).get('result', ''):
             print(prop, var, 'skipped:', meta['check']['result'], flush=True)
             continue
+        cprop = meta.get('check_with', prop)   # a change that only another property's check can see (stated in meta.note)
         r = subprocess.run(['git', '-C', REPO, 'apply', d + 'patch.diff'])
         if r.returncode != 0:
             meta['check'] = {'result': 'patch does not apply'}
@@ -123,7 +124,7 @@ def run(sel):
                 env = dict(os.environ)
                 if MIRROR:
                     env['VERIF_DIR'] = VDIR
-                p = subprocess.run(['timeout', os.environ.get('SEED_TIMEOUT', '1000'), './check.sh', prop, 'quick'], cwd=VDIR, capture_output=True, text=True, env=env)
+                p = subprocess.run(['timeout', os.environ.get('SEED_TIMEOUT', '1000'), './check.sh', cprop, 'quick'], cwd=VDIR, capture_output=True, text=True, env=env)
             finally:
                 subprocess.run(['git', '-C', REPO, 'checkout', '--', '.'])
                 subprocess.run(['git', '-C', REPO, 'clean', '-fdq'])
@@ -140,7 +141,7 @@ def run(sel):
                     first = lines[i + 1].strip()[:600]
                     break
             meta['check'] = {
-                'command': f'git -C /repo apply seeded/{prop}/{var}/patch.diff && ./check.sh {prop} quick (VERIF_SEED={os.environ.get("VERIF_SEED","1")}); git -C /repo checkout -- .',
+                'command': f'git -C /repo apply seeded/{prop}/{var}/patch.diff && ./check.sh {cprop} quick (VERIF_SEED={os.environ.get("VERIF_SEED","1")}); git -C /repo checkout -- .',
                 'exit_code': p.returncode, 'violation_lines': len(vio), 'signatures': sigs[:12], 'first_violation': first,
                 'summary': lines[-1][:300] if lines else '', 'wall_s': round(time.time() - t0, 1),
                 'result': 'caught' if p.returncode == 1 and vio else ('MISSED' if p.returncode == 0 else f'exit {p.returncode}'),
